@@ -84,6 +84,13 @@ def handle (fn : String) (a : Json) : Option (Except String Json) :=
     match Mistral.Gen.LangSchemas.patTable.find? (·.1 == name) with
     | some p => pure (.bool (p.2.2.search s))
     | none => throw s!"unknown pattern {name}"
+  | "schema.members" => some do
+    -- {"doc": dict}  ->  the string keys `BaseSpecList.__init__` instantiates (`specListMembers`)
+    match (← valOf (← a.getObjVal? "doc")) with
+    | .obj kvs => pure (.arr ((specListMembers kvs).map (fun kv => match kv.1 with
+        | .s k => Json.str k
+        | .ns r => Json.mkObj [("ns", .str r)])).toArray)
+    | _ => throw "not a dict"
   | "schema.equal" => some do
     let x ← valOf (← a.getObjVal? "a")
     let y ← valOf (← a.getObjVal? "b")
